@@ -12,7 +12,12 @@
 (*   {"k":"write","n":n,"r":..,"c":c,"wake":w}                             *)
 (*   {"k":"flush"|"shutdown"|"dropR"|"dropW"|"newpoll", "r":.., "wake":w}  *)
 (* "content":"corrupt" marks a read whose bytes were not the next bytes    *)
-(* of the written stream; wake is the set of wakers woken during the call. *)
+(* of the written stream; wake is the set of sides woken during the call;   *)
+(* w is the waker the caller presented (a half may be polled with another  *)
+(* waker each time), wokeR / wokeW the wakers of each side that were woken. *)
+(* rWait / wWait hold the waker of the side's LATEST pending poll (0 = not  *)
+(* waiting): only waking THAT waker ends the wait - waking an older one is  *)
+(* a lost wake-up.                                                          *)
 (***************************************************************************)
 EXTENDS Naturals, Sequences, TLC, Json, IOUtils
 
@@ -26,16 +31,19 @@ Min(a, b) == IF a < b THEN a ELSE b
 Max(a, b) == IF a > b THEN a ELSE b
 
 TraceInit == /\ i = 1 /\ cap = 1 /\ len = 0 /\ closed = FALSE
-             /\ rAlive = TRUE /\ wAlive = TRUE /\ rWait = FALSE /\ wWait = FALSE
+             /\ rAlive = TRUE /\ wAlive = TRUE /\ rWait = 0 /\ wWait = 0
              /\ TLCSet(1, 1)
 
-WokeR(e) == Has(e, "wake") /\ e.wake \in {"R", "both"}
-WokeW(e) == Has(e, "wake") /\ e.wake \in {"W", "both"}
+W(e) == IF Has(e, "w") THEN e.w ELSE 1
+InSeq(x, q) == \E j \in 1..Len(q) : q[j] = x
+\* the given waker of that side was woken during the call
+WokeRw(e, x) == IF Has(e, "wokeR") THEN InSeq(x, e.wokeR) ELSE (Has(e, "wake") /\ e.wake \in {"R", "both"})
+WokeWw(e, x) == IF Has(e, "wokeW") THEN InSeq(x, e.wokeW) ELSE (Has(e, "wake") /\ e.wake \in {"W", "both"})
 
 \* the property, evaluated on the state after every event
 NoLostWakeup(l, cl, ra, wa, rw, ww) ==
-    /\ (ra /\ rw) => (l = 0 /\ ~cl)
-    /\ (wa /\ ww) => (l = cap /\ ~cl)
+    /\ (ra /\ rw # 0) => (l = 0 /\ ~cl)
+    /\ (wa /\ ww # 0) => (l = cap /\ ~cl)
 
 Step(e) ==
     LET r == IF Has(e, "r") THEN e.r ELSE "ready"
@@ -44,41 +52,41 @@ Step(e) ==
     IN
     \/ /\ e.k = "reset"
        /\ cap' = e.cap /\ len' = 0 /\ closed' = FALSE /\ rAlive' = TRUE /\ wAlive' = TRUE
-       /\ rWait' = FALSE /\ wWait' = FALSE
+       /\ rWait' = 0 /\ wWait' = 0
     \/ /\ e.k = "read" /\ rAlive /\ ~Has(e, "content")
-       /\ \/ r = "yield" /\ WokeR(e) /\ len' = len
+       /\ \/ r = "yield" /\ WokeRw(e, W(e)) /\ len' = len
           \/ r = "pending" /\ len = 0 /\ ~closed /\ len' = len
           \/ r = "ready" /\ c > 0 /\ c <= len /\ c <= n /\ len' = len - c
           \/ r = "ready" /\ c = 0 /\ (n = 0 \/ (closed /\ len = 0)) /\ len' = len
-       /\ rWait' = IF WokeR(e) THEN FALSE ELSE IF r = "pending" THEN TRUE ELSE rWait
-       /\ wWait' = IF WokeW(e) THEN FALSE ELSE wWait
+       /\ rWait' = IF r = "pending" THEN W(e) ELSE IF rWait # 0 /\ WokeRw(e, rWait) THEN 0 ELSE rWait
+       /\ wWait' = IF wWait # 0 /\ WokeWw(e, wWait) THEN 0 ELSE wWait
        /\ UNCHANGED <<cap, closed, rAlive, wAlive>>
     \/ /\ e.k = "write" /\ wAlive
-       /\ \/ r = "yield" /\ WokeW(e) /\ len' = len
+       /\ \/ r = "yield" /\ WokeWw(e, W(e)) /\ len' = len
           \/ r = "pending" /\ len = cap /\ ~closed /\ n > 0 /\ len' = len
           \/ r = "ready" /\ ~closed /\ c = 0 /\ n = 0 /\ len' = len
           \/ r = "ready" /\ ~closed /\ c > 0 /\ c <= n /\ c <= cap - len /\ len' = len + c
           \/ r = "err" /\ closed /\ len' = len
-       /\ wWait' = IF WokeW(e) THEN FALSE ELSE IF r = "pending" THEN TRUE ELSE wWait
-       /\ rWait' = IF WokeR(e) THEN FALSE ELSE rWait
+       /\ wWait' = IF r = "pending" THEN W(e) ELSE IF wWait # 0 /\ WokeWw(e, wWait) THEN 0 ELSE wWait
+       /\ rWait' = IF rWait # 0 /\ WokeRw(e, rWait) THEN 0 ELSE rWait
        /\ UNCHANGED <<cap, closed, rAlive, wAlive>>
-    \/ /\ e.k = "flush" /\ wAlive /\ r \in {"ready", "yield"} /\ (r = "yield" => WokeW(e))
-       /\ rWait' = IF WokeR(e) THEN FALSE ELSE rWait
-       /\ wWait' = IF WokeW(e) THEN FALSE ELSE wWait
+    \/ /\ e.k = "flush" /\ wAlive /\ r \in {"ready", "yield"} /\ (r = "yield" => WokeWw(e, W(e)))
+       /\ rWait' = IF rWait # 0 /\ WokeRw(e, rWait) THEN 0 ELSE rWait
+       /\ wWait' = IF wWait # 0 /\ WokeWw(e, wWait) THEN 0 ELSE wWait
        /\ UNCHANGED <<cap, len, closed, rAlive, wAlive>>
     \/ /\ e.k = "shutdown" /\ wAlive
-       /\ \/ r = "yield" /\ WokeW(e) /\ closed' = closed
+       /\ \/ r = "yield" /\ WokeWw(e, W(e)) /\ closed' = closed
           \/ r = "ready" /\ closed' = TRUE
-       /\ rWait' = IF WokeR(e) THEN FALSE ELSE rWait
-       /\ wWait' = IF WokeW(e) THEN FALSE ELSE wWait
+       /\ rWait' = IF rWait # 0 /\ WokeRw(e, rWait) THEN 0 ELSE rWait
+       /\ wWait' = IF wWait # 0 /\ WokeWw(e, wWait) THEN 0 ELSE wWait
        /\ UNCHANGED <<cap, len, rAlive, wAlive>>
     \/ /\ e.k = "dropR" /\ rAlive /\ rAlive' = FALSE /\ closed' = TRUE
-       /\ rWait' = FALSE
-       /\ wWait' = IF WokeW(e) THEN FALSE ELSE wWait
+       /\ rWait' = 0
+       /\ wWait' = IF wWait # 0 /\ WokeWw(e, wWait) THEN 0 ELSE wWait
        /\ UNCHANGED <<cap, len, wAlive>>
     \/ /\ e.k = "dropW" /\ wAlive /\ wAlive' = FALSE /\ closed' = TRUE
-       /\ wWait' = FALSE
-       /\ rWait' = IF WokeR(e) THEN FALSE ELSE rWait
+       /\ wWait' = 0
+       /\ rWait' = IF rWait # 0 /\ WokeRw(e, rWait) THEN 0 ELSE rWait
        /\ UNCHANGED <<cap, len, rAlive>>
     \/ /\ e.k = "newpoll" /\ UNCHANGED <<cap, len, closed, rAlive, wAlive, rWait, wWait>>
 
